@@ -43,6 +43,13 @@ func vfGenC07Session(t *rapid.T) vfCaseC07 {
 	n := rapid.IntRange(1, 8).Draw(t, "ntail")
 	for _, r := range tail.Phases[0].Burst {
 		if len(c.Tail) < n {
+			// the grammar's handles 4 and 5 (read+write opens) do not exist in this session
+			if r.H == 5 {
+				continue
+			}
+			if r.H == 4 {
+				r.H = 0
+			}
 			if r.T == "READ" && r.Len > 300 && r.Len < 262144 {
 				r.Len = 300
 			}
